@@ -247,6 +247,7 @@ def digest_chunk(args: tuple) -> list:
             # must be the same execution
             again = dict(spec)
             again['decisions'] = list(res['decisions'])
+            _history.append(['specs', [json.loads(json.dumps(again))]])  # the history must list every execution
             res2 = runner.run_spec(again)
             after_run()
             if res2['digest'] != res['digest']:
@@ -346,10 +347,21 @@ def run_history_then_spec(args: tuple) -> dict:
         _worker_init()
     from . import runner
 
+    earlier = None
+    n = 0
     for s in _history_specs(history, spec['seed']):
-        runner.run_spec(s)
+        res = runner.run_spec(s)
         after_run()
-    return strip(runner.run_spec(spec))
+        n += 1
+        if earlier is None and res['status'] == 'violation':
+            # an earlier run of the history already violates the property in this process: reported to the
+            # caller, which may accept it when the final run does not reproduce (address-dependent failures)
+            s = dict(s)
+            s['decisions'] = res.get('decisions')
+            earlier = {'spec': s, 'result': strip(res), 'position': n}
+    final = strip(runner.run_spec(spec))
+    final['earlier_violation'] = earlier
+    return final
 
 
 def run_fresh_histories(cases: list[tuple], parallel: int = 16, timeout_s: float = 3600.0) -> list[dict]:
